@@ -316,6 +316,71 @@ def solved_constructors(ctx, n, out=None):
                 ctx.violate(f"SolvedMaze.from_targeted_lattice_maze on {label} ({r}x{c} maze {edges}, {s}->{e}): {bad}", case); return
 
 
+def int8_far_queries(ctx, n):
+    """queries whose coordinates are int8 arrays (the dtype the library declares for a Coord and loads solutions back as) between cells
+    128+ steps apart on big mazes WITH cycles: judged by BFS. Oracle only."""
+    import maze_dataset.maze.lattice_maze as LM
+    done = 0
+    while done < n and not ctx.violations:
+        g = ctx.rng.choice([90, 90, 100, 127])
+        dens = ctx.rng.choice([0.6, 0.7, 0.8])
+        cl = np.zeros((2, g, g), dtype=bool)
+        cl[0, : g - 1, :] = np.random.RandomState(ctx.rng.randrange(2**31)).rand(g - 1, g) < dens
+        cl[1, :, : g - 1] = np.random.RandomState(ctx.rng.randrange(2**31)).rand(g, g - 1) < dens
+        m = LM.LatticeMaze(connection_list=cl.copy())
+        for _ in range(6):
+            s = (ctx.rng.randrange(g // 8), ctx.rng.randrange(g // 8)) if ctx.rng.random() < 0.5 else (g - 1 - ctx.rng.randrange(g // 8), ctx.rng.randrange(g // 8))
+            e = (g - 1 - ctx.rng.randrange(g // 8), g - 1 - ctx.rng.randrange(g // 8)) if ctx.rng.random() < 0.7 else (ctx.rng.randrange(g), g - 1 - ctx.rng.randrange(g // 8))
+            if ctx.rng.random() < 0.5: s, e = e, s
+            d = bfs(g, g, cl, s)
+            done += 1; ctx.case(["int8-far", g, list(s), list(e)], nontrivial=True); ctx.count("int8_far_queries")
+            try:
+                pth = m.find_shortest_path(np.array(s, dtype=np.int8), np.array(e, dtype=np.int8)); got = len(pth) - 1
+            except ValueError:
+                got = None
+            except Exception as ex:
+                got = f"{type(ex).__name__}"
+            if got != d.get(e):
+                ctx.violate(f"{g}x{g} maze with cycles (random, density {dens}), query with int8 coordinate arrays {s}->{e}: the solver gives "
+                            f"{'ValueError' if got is None else got}, BFS on the connection structure says {d.get(e) if e in d else 'not connected'}",
+                            dict(rows=g, cols=g, edges=[[int(a), int(b), int(c)] for a, b, c in zip(*np.nonzero(cl))], start=list(s), end=list(e), int8_query=True)); return
+
+
+def far_cycle_with_tail(ctx, n):
+    """a small cycle FAR from the target (two routes around it, 4 and 6 steps) and one long corridor from the cycle to the corner (0,0), on grids
+    where the far side is 128+ steps away; queried from the far side of the cycle with int8, int64 and tuple coordinates. Oracle only."""
+    import maze_dataset.maze.lattice_maze as LM
+    def connect(cl, a, b):
+        if a[0] == b[0]: cl[1, a[0], min(a[1], b[1])] = True
+        else: cl[0, min(a[0], b[0]), a[1]] = True
+    for k in range(n):
+        g = ctx.rng.choice([70, 100, 127])
+        # the cycle straddles Manhattan distance 128 from the target (0,0): some of its cells are 127 or less away, others 128 or more
+        D = ctx.rng.choice([126, 127, 128, 128, 129, 130, 131])
+        r0 = ctx.rng.randrange(max(2, D - 2 - (g - 4)), min(g - 4, D - 4) + 1)
+        c0 = D - 2 - r0
+        if not (0 < c0 <= g - 3 and 0 < r0 <= g - 4): continue
+        cl = np.zeros((2, g, g), dtype=bool)
+        S, B = (r0, c0 + 2), (r0 + 2, c0)
+        short = [S, (r0, c0 + 1), (r0, c0), (r0 + 1, c0), B]
+        long_ = [S, (r0 + 1, c0 + 2), (r0 + 2, c0 + 2), (r0 + 3, c0 + 2), (r0 + 3, c0 + 1), (r0 + 3, c0), B]
+        tail = [B] + [(r0 + 2, c) for c in range(c0 - 1, -1, -1)] + [(r, 0) for r in range(r0 + 1, -1, -1)]
+        for route in (short, long_, tail):
+            for a, b in zip(route, route[1:]): connect(cl, a, b)
+        m = LM.LatticeMaze(connection_list=cl.copy())
+        for s, e in ((S, (0, 0)), ((0, 0), S), ((r0 + 3, c0 + 2), (0, 0)), ((r0 + 1, c0 + 2), (r0 + 2, 0))):
+            d = bfs(g, g, cl, s)
+            for label, conv in (("int8 arrays", lambda x: np.array(x, dtype=np.int8)), ("int64 arrays", lambda x: np.array(x)), ("tuples", lambda x: x)):
+                ctx.case(["far-cycle", g, r0, c0, list(s), list(e), label], nontrivial=True); ctx.count("far_cycle_queries")
+                try: got = len(m.find_shortest_path(conv(s), conv(e))) - 1
+                except ValueError: got = None
+                except Exception as ex: got = f"{type(ex).__name__}"
+                if got != d.get(e):
+                    ctx.violate(f"{g}x{g} maze: a 10-cell cycle at rows {r0}..{r0 + 3}, columns {c0}..{c0 + 2} with one corridor to (0,0); query {s}->{e} given as {label}: the solver "
+                                f"gives {'ValueError' if got is None else got}, BFS on the connection structure says {d.get(e)}",
+                                dict(rows=g, cols=g, edges=[[int(a), int(b), int(c)] for a, b, c in zip(*np.nonzero(cl))], start=list(s), end=list(e), int8_query=(label == "int8 arrays"))); return
+
+
 def big_jobs(rng, quick):
     """scale: grids far beyond the exhaustive range (a defect may need a long distance or a large coordinate to show)"""
     jobs = []
@@ -363,6 +428,8 @@ def run(ctx):
     jobs += big_jobs(ctx.rng, ctx.quick)
     mutation_sequences(ctx, 60 if ctx.quick else 1500)
     generated_mazes(ctx, 40 if ctx.quick else 600)
+    int8_far_queries(ctx, 12 if ctx.quick else 240)
+    if not ctx.violations: far_cycle_with_tail(ctx, 6 if ctx.quick else 60)
     ctor_obs = []
     solved_constructors(ctx, 300 if ctx.quick else 6000, ctor_obs)
     ctx.count("mazes", len(jobs))
@@ -389,6 +456,10 @@ def run(ctx):
 
 
 def search(ctx):
+    far_cycle_with_tail(ctx, 40)
+    if ctx.violations: return
+    int8_far_queries(ctx, 60)
+    if ctx.violations: return
     mutation_sequences(ctx, 300)
     if ctx.violations: return
     generated_mazes(ctx, 200)
@@ -412,4 +483,11 @@ def replay(ctx, rp):
         solved_constructors(ctx, 2000); return
     cl = np.zeros((2, c["rows"], c["cols"]), dtype=bool)
     for d, i, j in c["edges"]: cl[d, i, j] = True
+    if c.get("int8_query"):
+        import maze_dataset.maze.lattice_maze as LM
+        s0, e0 = tuple(c["start"]), tuple(c["end"]); d0 = bfs(c["rows"], c["cols"], cl, s0)
+        try: got = len(LM.LatticeMaze(connection_list=cl).find_shortest_path(np.array(s0, dtype=np.int8), np.array(e0, dtype=np.int8))) - 1
+        except ValueError: got = None
+        if got != d0.get(e0): ctx.violate(f"replay: int8 query {s0}->{e0} gives {got}, BFS says {d0.get(e0)}", c)
+        return
     judge(ctx, c["rows"], c["cols"], cl, solve_all(cl, [(tuple(c["start"]), tuple(c["end"]))]), "replay")
